@@ -19,3 +19,13 @@ Theorem C11_gen_weekday_add_days : forall wd d, 0 <= wd <= 255 -> -2147483648 <=
   Gen_chrono.weekday_add_days_g wd d = Some (weekday_add_days_m wd d).
 Proof. exact gen_weekday_add_days_eq. Qed.
 Print Assumptions C11_gen_weekday_add_days.
+Theorem C11_gen_month_plus : forall m dm, 0 <= m <= 255 -> -2147483648 < dm <= 2147483647 ->
+  Gen_chrono.month_plus_g m dm = Some (month_plus_m m dm).
+Proof. exact gen_month_plus_eq. Qed.
+Print Assumptions C11_gen_month_plus.
+Theorem C11_gen_month_minus : forall m1 m2, Gen_chrono.month_minus_g m1 m2 = Some (month_minus_m m1 m2).
+Proof. exact gen_month_minus_eq. Qed.
+Print Assumptions C11_gen_month_minus.
+Theorem C11_gen_weekday_diff : forall a b, Gen_chrono.weekday_diff_g a b = Some (weekday_diff_m a b).
+Proof. exact gen_weekday_diff_eq. Qed.
+Print Assumptions C11_gen_weekday_diff.
